@@ -26,15 +26,20 @@
 (*   flows  : sequence of [name, from, to, dims]       (process indices)   *)
 (*   stocks : sequence of [name, proc, dims, kind, setting]                *)
 (*               proc 0 = none; dims start with "t"; kind "dsm" (inflow-   *)
-(*               driven, fixed lifetime) | "simple" (flow-driven)          *)
+(*               driven, fixed lifetime) | "sdsm" (stock-driven, fixed     *)
+(*               lifetime) | "simple" (flow-driven)                        *)
 (*   prog   : sequence of statements                                       *)
 (*               [op |-> "flow", id, e]      flows[id][...] = e            *)
 (*               [op |-> "sin",  id, e]      stocks[id].inflow[...] = e    *)
 (*               [op |-> "sout", id, e]      stocks[id].outflow[...] = e   *)
+(*               [op |-> "slev", id, e]      stocks[id].stock[...] = e     *)
 (*               [op |-> "scompute", id]     stocks[id].compute()          *)
+(*               [op |-> "flowkey", id, key, e]  flows[id][key] = e        *)
+(*                   (key: sequence of <<letter, item>>: single items)     *)
 (*   expression e : [op |-> "p" | "f" | "sin" | "sout" | "slev", id]       *)
 (*               | [op |-> "mul" | "add" | "sub", a, b] | [op |-> "neg", a]*)
 (*               | [op |-> "sumto", a, dims] | [op |-> "scale", a, k]      *)
+(*               | [op |-> "get", a, key] | [op |-> "cumsum", a, l]        *)
 (* The state is  [prm, flw, sin, sout, slev : sequences of arrays,         *)
 (*                life8 : sequence of lifetimes in eighths of a year]      *)
 (***************************************************************************)
@@ -68,6 +73,21 @@ AScale(x, k) == RA(x.dims, LAMBDA lab : NMul(x.val[lab], k))
 \* target[...] = x : the target keeps its dims, the source is summed by label over what the target lacks
 Assignable(ds, x) == Range(ds) \subseteq DimsOfA(x)
 Assigned(ds, x) == ASumTo(x, ds)
+\* x[key] with single items: the addressed dimensions are dropped (C06); x[key] = src fills exactly the addressed region with
+\* the source summed by label to the region's dimensions (C05); cumulative sum along a dimension in item order (C07)
+KeyLetters(key) == {key[i][1] : i \in DOMAIN key}
+KeyAt(key, l) == key[CHOOSE i \in DOMAIN key : key[i][1] = l][2]
+KeyOKA(x, key) == KeyLetters(key) \subseteq DimsOfA(x) /\ \A i \in DOMAIN key : key[i][2] \in ItemSet(key[i][1])
+RegionDims(ds, key) == SelectSeq(ds, LAMBDA l : l \notin KeyLetters(key))
+AGet(x, key) == RA(RegionDims(x.dims, key),
+                   LAMBDA lab : x.val[[l \in DimsOfA(x) |-> IF l \in KeyLetters(key) THEN KeyAt(key, l) ELSE lab[l]]])
+ASetKey(x, key, src) ==
+    LET rd == RegionDims(x.dims, key)
+        sm == ASumTo(src, rd)
+    IN  [dims |-> x.dims,
+         val |-> TLCEval([full \in Labelings(x.dims) |->
+                            IF \A l \in KeyLetters(key) : full[l] = KeyAt(key, l) THEN sm.val[RestrictTo(full, Range(rd))] ELSE x.val[full]])]
+ACumSum(x, l) == RA(x.dims, LAMBDA lab : NSumOver(LAMBDA j : x.val[[lab EXCEPT ![l] = j]], 1..lab[l]))
 ATotal(x) == NSumOver(LAMBDA lab : x.val[lab], Labelings(x.dims))
 HasNaN(x) == \E lab \in Labelings(x.dims) : IsNaN(x.val[lab])
 
@@ -85,6 +105,8 @@ Eval(st, e) ==
       [] e.op = "neg"  -> ANeg(Eval(st, e.a))
       [] e.op = "sumto" -> ASumTo(Eval(st, e.a), e.dims)
       [] e.op = "scale" -> AScale(Eval(st, e.a), RNorm(e.k[1], e.k[2]))
+      [] e.op = "get"   -> AGet(Eval(st, e.a), e.key)
+      [] e.op = "cumsum" -> ACumSum(Eval(st, e.a), e.l)
 
 \* ------------------------------------------------------------------ stocks
 N == Len(TGrid)
@@ -106,6 +128,21 @@ DsmTables(M, st, s) ==
     IN  [lev |-> RA(ds, LAMBDA lab : DSM(nl, M.stocks[s].setting, p8)!RStockOf(rin, lab[ds[1]], kOf(lab))),
          out |-> RA(ds, LAMBDA lab : DSM(nl, M.stocks[s].setting, p8)!ROutflow(rin, lab[ds[1]], kOf(lab)))]
 
+\* stock-driven model of stock s for the CURRENT prescribed stock and lifetime: the inflow that reproduces it, and its outflow
+SdsmTables(M, st, s) ==
+    LET ds   == M.stocks[s].dims
+        labs == RestLabs(ds)
+        nl   == Len(labs)
+        lev  == [t \in 1..N |-> [k \in 1..nl |-> st.slev[s].val[WithT(ds, t, labs[k])]]]
+        p8   == [c \in 1..N |-> [k \in 1..nl |-> st.life8[s]]]
+        rin  == [t \in 1..N |-> [k \in 1..nl |-> DSM(nl, M.stocks[s].setting, p8)!SInflow(lev, t, k)]]
+        kOf(lab) == CHOOSE k \in 1..nl : labs[k] = RestrictTo(lab, Range(Rest(ds)))
+    IN  [inf |-> RA(ds, LAMBDA lab : rin[lab[ds[1]]][kOf(lab)]),
+         out |-> RA(ds, LAMBDA lab : DSM(nl, M.stocks[s].setting, p8)!ROutflow(rin, lab[ds[1]], kOf(lab)))]
+SdsmSolvable(M, st, s) ==
+    LET nl == Len(RestLabs(M.stocks[s].dims))
+    IN  DSM(nl, M.stocks[s].setting, [c \in 1..N |-> [k \in 1..nl |-> st.life8[s]]])!Solvable
+
 TG == INSTANCE TimeGrid WITH Grid <- TGrid
 DtOf(t) == RNorm(TG!DT2(t), 2)
 \* flow-driven stock: cumulated net inflow over whole periods
@@ -120,9 +157,13 @@ Step(M, st, stmt) ==
     CASE stmt.op = "flow" -> [st EXCEPT !.flw[stmt.id] = Assigned(M.flows[stmt.id].dims, Eval(st, stmt.e))]
       [] stmt.op = "sin"  -> [st EXCEPT !.sin[stmt.id] = Assigned(M.stocks[stmt.id].dims, Eval(st, stmt.e))]
       [] stmt.op = "sout" -> [st EXCEPT !.sout[stmt.id] = Assigned(M.stocks[stmt.id].dims, Eval(st, stmt.e))]
+      [] stmt.op = "slev" -> [st EXCEPT !.slev[stmt.id] = Assigned(M.stocks[stmt.id].dims, Eval(st, stmt.e))]
+      [] stmt.op = "flowkey" -> [st EXCEPT !.flw[stmt.id] = ASetKey(st.flw[stmt.id], stmt.key, Eval(st, stmt.e))]
       [] stmt.op = "scompute" ->
             IF M.stocks[stmt.id].kind = "dsm"
             THEN LET tb == DsmTables(M, st, stmt.id) IN [st EXCEPT !.slev[stmt.id] = tb.lev, !.sout[stmt.id] = tb.out]
+            ELSE IF M.stocks[stmt.id].kind = "sdsm"
+            THEN LET tb == SdsmTables(M, st, stmt.id) IN [st EXCEPT !.sin[stmt.id] = tb.inf, !.sout[stmt.id] = tb.out]
             ELSE [st EXCEPT !.slev[stmt.id] = SimpleLevel(M, st, stmt.id)]
 
 RECURSIVE RunFrom(_, _, _)
@@ -134,8 +175,11 @@ RECURSIVE WellFormedFrom(_, _, _)
 WellFormedFrom(M, st, k) ==
     IF k > Len(M.prog) THEN TRUE
     ELSE LET stmt == M.prog[k]
-             tgt  == IF stmt.op = "flow" THEN M.flows[stmt.id].dims ELSE M.stocks[stmt.id].dims
-         IN  /\ stmt.op # "scompute" => Assignable(tgt, Eval(st, stmt.e))
+             tgt  == IF stmt.op \in {"flow", "flowkey"} THEN M.flows[stmt.id].dims ELSE M.stocks[stmt.id].dims
+         IN  /\ stmt.op \notin {"scompute", "flowkey"} => Assignable(tgt, Eval(st, stmt.e))
+             /\ stmt.op = "flowkey" => /\ KeyOKA(st.flw[stmt.id], stmt.key)
+                                        /\ Assignable(RegionDims(tgt, stmt.key), Eval(st, stmt.e))
+             /\ (stmt.op = "scompute" /\ M.stocks[stmt.id].kind = "sdsm") => SdsmSolvable(M, st, stmt.id)
              /\ WellFormedFrom(M, Step(M, st, stmt), k + 1)
 
 \* ------------------------------------------------------------------ the built system (C18) as a state
